@@ -3,6 +3,7 @@ package c08
 
 import (
 	"bytes"
+	"context"
 	"fmt"
 	"math/big"
 	"math/rand"
@@ -334,7 +335,7 @@ func positive(s sink.Sink, em *childrun.Emitter, rng *rand.Rand, sample bool) {
 		loser := []*party.Party{A, B}[rng.Intn(2)]
 		lk := wire.Keys(loser.Wire)
 		var refused int64
-		w.Bus.SetSendFault(func(e *wire.Envelope) error {
+		w.Bus.SetSendFault(func(_ context.Context, e *wire.Envelope) error {
 			if m, ok := e.Msg.(*client.ChannelUpdateAccMsg); ok && m.Version == 0 && wire.Keys(e.Sender) == lk {
 				atomic.AddInt64(&refused, 1)
 				return fmt.Errorf("connection closed")
